@@ -455,14 +455,14 @@ func classifyB(c CaseB) core.Class {
 	}
 	cl := core.Class{Labels: []string{"format:" + formatName(c.Format), fmt.Sprintf("arch:%d", c.Arch), "name:" + class, enc, "transport:" + tr, fmt.Sprintf("name-on-cmdline:%v", onCmd)}}
 	cl.NonTrivial = nonDefaults(c.Cfg.Opts) >= 2 || (onCmd && class != "plain" && class != "empty")
-	cl.Fingerprint = fmt.Sprintf("%s|%d|%s|%v|%s|%s", formatName(c.Format), c.Arch, class, onCmd, enc, tr)
+	cl.Fingerprint = fmt.Sprintf("%s|%s|%v|%s", formatName(c.Format), class, onCmd, enc)
 	return cl
 }
 
 func TestC13b(t *testing.T) {
 	core.Run(t, core.Spec[CaseB]{
 		Property: "C13", Sub: "b",
-		Rule: "builder.Build() with stub compilers/assembler (log argv NUL-separated, require operands to exist, create -o, exit 0) inside a mirror of the source tree, for every format (exe, service exe, dll, reflective dll, shellcode) x arch (x64, x86) x options and listener of (a) (10% may be unencodable) x service name from {plain, empty, glob, spaces, quotes, $(), backticks, ;, |, &&, ||, &, newline, $VAR}, each non-plain one carrying `touch <canary>`. Oracle: the canary directory stays empty; unencodable => Build() false, Error message, compiler never started; encodable and a shell-neutral name => Build() true with exactly one compiler run of the right architecture, -DTRANSPORT_x matching the listener, one -DCONFIG_BYTES={...} equal to PatchConfig() of a separate builder for the same input (and passing (a)'s field oracle), and -DSERVICE_NAME=\"<name>\" as one verbatim argument; other names: verbatim or the build fails. Non-trivial: >=2 non-default options or a service name with shell syntax that reaches the command line; distinct = (format, arch, name class, on command line, encodable, transport)",
+		Rule: "builder.Build() with stub compilers/assembler (log argv NUL-separated, require operands to exist, create -o, exit 0) inside a mirror of the source tree, for every format (exe, service exe, dll, reflective dll, shellcode) x arch (x64, x86) x options and listener of (a) (10% may be unencodable) x service name from {plain, empty, glob, spaces, quotes, $(), backticks, ;, |, &&, ||, &, newline, $VAR}, each non-plain one carrying `touch <canary>`. Oracle: the canary directory stays empty; unencodable => Build() false, Error message, compiler never started; encodable and a shell-neutral name => Build() true with exactly one compiler run of the right architecture, -DTRANSPORT_x matching the listener, one -DCONFIG_BYTES={...} equal to PatchConfig() of a separate builder for the same input (and passing (a)'s field oracle), and -DSERVICE_NAME=\"<name>\" as one verbatim argument; other names: verbatim or the build fails. Non-trivial: >=2 non-default options or a service name with shell syntax that reaches the command line; distinct = (format, name class, on command line, encodable)",
 		Gen:  genB, Check: checkB, Classify: classifyB,
 		Assumptions: []string{
 			"/bin/sh is a POSIX shell; the stub stands for any compiler driver: operands that are not options must be existing files",
